@@ -495,6 +495,38 @@ func c02Sweeps(ctx *ev.Ctx) {
 		ctx.Report("", "a 32-bit payload decodes/encodes differently from the reference", bad, map[string]string{"sweep": "32bit", "detail": bad})
 		bad = ""
 	}
+	// 3b. Address: every 16-bit address family with data of 1, 3, 4, 5, 14, 16 and 17 octets. Families 1
+	// and 2 have a layout of their own (4 / 16 octets, anything else is malformed); every other
+	// family is carried as it is, family octets included (0 and 65535 are reserved: no demand).
+	for fam := 1; fam < 65535; fam++ {
+		for _, n := range []int{1, 3, 4, 5, 14, 16, 17} {
+			ab := make([]byte, 2+n)
+			ab[0], ab[1] = byte(fam>>8), byte(fam)
+			for i := 0; i < n; i++ {
+				ab[2+i] = byte(0xa0 + i)
+			}
+			d, err := datatype.DecodeAddress(ab)
+			wantErr := fam == 1 && n != 4 || fam == 2 && n != 16
+			want := ab
+			if fam == 1 || fam == 2 {
+				want = ab[2:]
+			}
+			switch {
+			case wantErr && err == nil:
+				fail(fmt.Sprintf("Address payload %x (family %d with %d octets) accepted as %v", ab, fam, n, d))
+			case !wantErr && err != nil:
+				fail(fmt.Sprintf("Address payload %x (family %d, %d octets): %v", ab, fam, n, err))
+			case !wantErr && !bytes.Equal([]byte(d.(datatype.Address)), want):
+				fail(fmt.Sprintf("Address payload %x (family %d, %d octets) decoded as %x, the encoded value is %x", ab, fam, n, []byte(d.(datatype.Address)), want))
+			}
+		}
+	}
+	ctx.EvalN(65534*7, 65534*7)
+	ctx.Set("sweep_address_families", "1..65534 x data of {1,3,4,5,14,16,17} octets")
+	if bad != "" {
+		ctx.Report("", "an Address payload decodes differently from the reference", bad, map[string]string{"sweep": "address-family", "detail": bad})
+		bad = ""
+	}
 	// 4. 64-bit types: boundary values, walking one / walking zero / all two-bit patterns
 	var pats []uint64
 	for i := 0; i < 64; i++ {
